@@ -711,7 +711,8 @@ def render(spec, shared=()):
         return 'bioLinearUtility([' + ', '.join(f'({r(b)}, {r(x)})' for b, x in spec[1]) + '])'
     if k == 'LogLogit':
         return ('LogLogit(choice=' + r(spec[1]) + ', {' +
-                ', '.join(f'{a}: V={r(u)} av={r(av) if av is not None else "-"}' for a, u, av in spec[2]) + '})')
+                ', '.join(f'{a}: V={r(u)} av={r(av) if av is not None else "-"}' for a, u, av in spec[2]) + '}' +
+                (f', av listed as {spec[4]}' if len(spec) > 4 and spec[4] else '') + ')')
     if k in ('Integrate', 'Derive'):
         return f'{k}({r(spec[1])}, {spec[2]!r})'
     return str(spec)
